@@ -444,7 +444,11 @@ def _lazy_cat(
                 batch_size=member_batch_size,
                 device=list_of_tensordicts[0].device,
             )
-        return type(list_of_tensordicts[0])(*out, stack_dim=stack_dim)
+        return type(list_of_tensordicts[0])(
+            *out,
+            stack_dim=stack_dim,
+            stack_dim_name=list_of_tensordicts[0]._td_dim_name,
+        )
     else:
         if not isinstance(out, LazyStackedTensorDict):
             return _cat(list_of_tensordicts, dim=dim, out=out)
@@ -589,6 +593,7 @@ def _stack(
                                 )
                             ],
                             stack_dim=lazy_stack_dim,
+                            stack_dim_name=list_of_tensordicts[0]._td_dim_name,
                         )
                         if is_tc:
                             return clz._from_tensordict(result)
@@ -607,6 +612,7 @@ def _stack(
                         )
                     ],
                     stack_dim=lazy_stack_dim,
+                    stack_dim_name=list_of_tensordicts[0]._td_dim_name,
                 )
                 if is_tc:
                     return clz._from_tensordict(result)
